@@ -1214,7 +1214,7 @@ def generate_all():
             HARNESSES[nm] = dict(kernel='settings', family='pair', props=pp, tier=('thorough' if nm in ('k_pair_calc_chunk_size', 'k_pair_next_chunk_size') else 'quick'), bounded=False,
                                  path='%s::vk_pair::%s' % (mod, nm), shape=dict(inputs='full-domain symbolic'), covers_expected=None, covers_min=0,
                                  bound='loop-free (find_chunk_size unrolled 22x with unwinding assertions: complete since the loop halves 2^20), full-domain symbolic inputs')
-    for nm in ('k_dep_heap_pop_order', 'k_dep_heap_push_then_pop'):
+    for nm in ('k_dep_heap_pop_order', 'k_dep_heap_push_then_pop', 'k_dep_bag_positions'):
         HARNESSES[nm] = dict(kernel='dependency', family='dep', props=['C01', 'C06', 'C13'], tier='quick', bounded=True,
                              path='core::verif_kani::h_dep::%s' % nm, shape=dict(source='real orx-priority-queue BinaryHeap<usize, u8>, 3 entries'),
                              covers_expected=None, covers_min=0,
